@@ -25,7 +25,9 @@ def _reexec_pinned():
         env = dict(os.environ)
         env['PYTHONHASHSEED'] = os.environ.get('VERIF_HASHSEED', '0')
         env['PYTHONDONTWRITEBYTECODE'] = '1'
-        os.execve(sys.executable, [sys.executable, '-B'] + sys.argv, env)
+        opt = ['-O'] if sys.flags.optimize else []
+        os.execve(sys.executable, [sys.executable, '-B'] + opt + sys.argv,
+                  env)
 
 
 def main(argv=None):
@@ -74,6 +76,13 @@ def main(argv=None):
                                 workers=a.workers, runs=a.runs, wall=a.wall,
                                 write_evidence=not a.no_evidence)
         if a.cmd == 'replay':
+            with open(a.file) as fp:
+                want_opt = json.load(fp).get('python_optimize', 0)
+            if want_opt and not sys.flags.optimize:
+                # the violation was found in an interpreter started with -O
+                os.execve(sys.executable,
+                          [sys.executable, '-O', '-B'] + sys.argv,
+                          dict(os.environ))
             return kernel.replay(a.file)
         if a.cmd == 'selftest':
             from dsim import selftest
